@@ -1,0 +1,15 @@
+//go:build verif
+
+package parser
+
+// VerifLex drains the grammar-file lexer and returns the tokens it sent,
+// in order, up to and including EOF or the error token. Compiled only with
+// `-tags verif`; used by the verification harness in /verif.
+func VerifLex(src string) []Token {
+	l := Lex(src)
+	var res []Token
+	for t := range l.tokens {
+		res = append(res, t)
+	}
+	return res
+}
